@@ -22,7 +22,7 @@ func init() {
 			"(extAt i : Int) (idEqual : Bool)", "Option Int", "some extAt",
 			Spec{Ret: "errlast", Vars: map[string]string{"extAt": "extAt", "i": "i"}, Repl: map[string]string{"ext.Id.Equal(oid)": "idEqual"}})},
 		// … and what follows the loop: the error when nothing was found
-		{"removeExtension.absent", condKernel(x, "removeExtension", []string{"extAt == -1"}, "removeExtensionAbsent", "(extAt : Int)",
+		{"removeExtension.absent", ifAfterLoop(x, "removeExtension", "tbs.Extensions", "extAt", "removeExtensionAbsent", "(extAt : Int)",
 			Spec{Vars: map[string]string{"extAt": "extAt"}})},
 		// BuildPrecertTBS: the authority-key-id update, as normalised source (pinned by C03.facts_as_modelled)
 		{"BuildPrecertTBS.keyAtLoop", rangeLoopSrc(x, "BuildPrecertTBS", "tbs.Extensions", "buildPrecertKeyAtLoop")},
@@ -308,5 +308,28 @@ func ifChainConds(rel, fn, first, leanName string) func() string {
 		}
 		walk(ss[0].(*ast.IfStmt), "")
 		return fmt.Sprintf("/-- generated from %s func %s: shape of the `if %s` statement -/\ndef %s : List String := [%s]\n", rel, fn, first, leanName, strings.Join(rows, ", "))
+	}
+}
+
+// ifAfterLoop translates the condition of the first top-level `if` that follows the range loop over loopX in fn and mentions v
+// (the error test on the loop's result), whatever comparison it uses.
+func ifAfterLoop(rel, fn, loopX, v, leanName, params string, sp Spec) func() string {
+	return func() string {
+		fd := mustFunc(rel, fn)
+		t := &tr{sp: sp}
+		seen := false
+		for _, st := range fd.Body.List {
+			if r, ok := st.(*ast.RangeStmt); ok && src(r.X) == loopX {
+				seen = true
+				continue
+			}
+			if i, ok := st.(*ast.IfStmt); ok && seen && strings.Contains(src(i.Cond), v) {
+				if !hasReturn(i.Body.List) {
+					panic(bail{fmt.Sprintf("%s: `if %s` after the loop in %s does not return", rel, src(i.Cond), fn)})
+				}
+				return fmt.Sprintf("/-- generated from %s func %s: `if %s` after the loop (returns an error) -/\ndef %s %s : Bool :=\n  %s\n", rel, fn, src(i.Cond), leanName, params, t.expr(i.Cond))
+			}
+		}
+		panic(bail{fmt.Sprintf("%s: no `if` on %s after the loop over %s in %s", rel, v, loopX, fn)})
 	}
 }
